@@ -165,6 +165,10 @@ JOBS = [
     # ---- geocentric (C07)
     Job('Geocentric.ctor', 'Geocentric::Geocentric', ['C13', 'C07'], arity=2, description='constructor: parameter validation; establishes the class invariant used by IntReverse'),
     Job('PolarStereographic.ctor', 'PolarStereographic::PolarStereographic', ['C13'], arity=3, replace=['Math::eatanhe'], description='constructor: parameter validation'),
+    Job('TransverseMercator.ctor', 'TransverseMercator::TransverseMercator', ['C13'], arity=5, replace=['Math::eatanhe'], unwind=9,
+        rewrites=[(r'_tmexact = [^;]*;', '')], description='constructor: parameter validation; Krueger coefficient table addressing'),
+    Job('Geodesic.ctor', 'Geodesic::Geodesic', ['C13'], arity=3, replace=['Math::eatanhe', 'Geodesic::A3coeff', 'Geodesic::C3coeff', 'Geodesic::C4coeff'],
+        rewrites=[(r'_geodexact = [^;]*;', ''), (r'_c2 = _geodexact\._c2;', ';')], timeout=600, description='constructor: parameter validation'),
     Job('Geocentric.Rotation', 'Geocentric::Rotation', ['C07', 'C13', 'C14'], description='rotation matrix: frame and copied entries'),
     Job('Geocentric.IntReverse', 'Geocentric::IntReverse', ['C07', 'C13', 'C14'], replace=['Math::atan2d', 'Geocentric::Rotation'], timeout=900, sat='cadical',
         description='geocentric -> geodetic: ranges of latitude and longitude, frame, optional matrix pointer'),
